@@ -119,6 +119,9 @@ def run_conn(scratch, tier, testbin, faults=False, c10=False):
                 nv += 1
         for c in crashes:
             first = [l for l in c["output"].split("\n") if l.startswith(("panic:", "fatal error:")) or "blocked goroutines remain" in l or "deadlock" in l]
+            if not first:
+                # killed, out of memory, a failure of the harness itself: says nothing about the code
+                raise Infra("replay worker of %s died without a panic or deadlock of its own:\n%s" % (name, c["output"][-2000:]))
             out["violations"].append(dict(sig="conn|%s|crash|%s" % (cfg["rig"], (first[0][:50] if first else "worker-died").replace(" ", "-")),
                                           detail="replay worker died (%s): %s" % (name, c["output"][-1500:]),
                                           replay=dict(check="conn", config=cfg)))
